@@ -132,6 +132,21 @@ def r03_5_limit_derivation(ctx, rule: str = 'R03.5') -> List[Ob]:
                 detail = str(e)
         else:
             detail = f"{len(assigns)} assignments to {lim}"
+        if not good and len(assigns) == 2 and len(params) >= 5:
+            # the same derivation written as a selection: if max_tau > 0: lim = min(t_end - t_start, 2*max_tau) else: lim = t_end - t_start
+            try:
+                span = C.sub(C.atom(('n', params[3])), C.atom(('n', params[2])))
+                want_b = C.mk_minmax('min', [span, C.scale(C.atom(('n', params[4])), 2)])
+                for n in ast.walk(f.node):
+                    if isinstance(n, ast.If) and len(n.body) == 1 and len(n.orelse) == 1 and {id(n.body[0]), id(n.orelse[0])} == {id(a_) for a_ in assigns}:
+                        g = C.canon_cond(n.test, env)
+                        pos_g = C.mk_cmp('gt', C.atom(('n', params[4])), C.ZERO)
+                        vb, vo = C.canon_expr(n.body[0].value, env), C.canon_expr(n.orelse[0].value, env)
+                        if (g == pos_g and vb == want_b and vo == span) or (g == C.mk_not(pos_g) and vo == want_b and vb == span):
+                            good = True
+                            detail = f"selection under {C.show(g)}: {C.show(vb)} / {C.show(vo)}"
+            except C.CanonError as e:
+                detail = str(e)
         if good:
             obs.append(ok(rule, t, f.loc(assigns[0]), construct=_fn(f), detail=detail))
         else:
@@ -267,6 +282,19 @@ def eval_interpolate(fn: ast.FunctionDef, a: int, b: int, t: int) -> Optional[st
                 if (v[1] < best[1]) if pick is min else (v[1] > best[1]):
                     best = v
             return best
+        if isinstance(e, (ast.Tuple, ast.List)):
+            return [ev(x) for x in e.elts]
+        if isinstance(e, ast.Call) and isinstance(e.func, ast.Name) and e.func.id == 'sorted' and len(e.args) == 1 and not e.keywords:
+            vals = ev(e.args[0])
+            if not isinstance(vals, list):
+                raise ValueError('sorted of a scalar')
+            return sorted(vals, key=lambda v: v[1])            # stable: ties keep their order (value-equal anyway)
+        if isinstance(e, ast.Subscript) and isinstance(e.slice, ast.Constant) and isinstance(e.slice.value, int):
+            vals = ev(e.value)
+            if isinstance(vals, list):
+                return vals[e.slice.value]
+        if isinstance(e, ast.IfExp):
+            return ev(e.body) if cond(e.test) else ev(e.orelse)
         raise ValueError(ast.dump(e))
 
     def cond(c):
@@ -285,6 +313,13 @@ def eval_interpolate(fn: ast.FunctionDef, a: int, b: int, t: int) -> Optional[st
                 continue
             if isinstance(st, ast.Assign) and isinstance(st.targets[0], ast.Name):
                 env[st.targets[0].id] = ev(st.value)
+            elif isinstance(st, ast.Assign) and isinstance(st.targets[0], (ast.Tuple, ast.List)) \
+                    and all(isinstance(x, ast.Name) for x in st.targets[0].elts):
+                vals = ev(st.value)
+                if not isinstance(vals, list) or len(vals) != len(st.targets[0].elts):
+                    raise ValueError('unpacking')
+                for x, v in zip(st.targets[0].elts, vals):
+                    env[x.id] = v
             elif isinstance(st, ast.If):
                 r = run(st.body) if cond(st.test) else run(st.orelse)
                 if r is not None:
@@ -311,10 +346,17 @@ def interpolate_copies(repo: Repo) -> List[FuncInfo]:
         if not params:
             continue
         mrts = params[-1]
+        # the threshold handed on: the MRTS parameter itself (re-scaled in place) or a local computed from it alone
+        thr = {mrts}
+        for n in ast.walk(g.node):
+            if isinstance(n, ast.Assign) and len(n.targets) == 1 and isinstance(n.targets[0], ast.Name):
+                used = {x.id for x in ast.walk(n.value) if isinstance(x, ast.Name)}
+                if used == {mrts}:
+                    thr.add(n.targets[0].id)
         names = []
         for n in ast.walk(g.node):
             if isinstance(n, ast.Call) and isinstance(n.func, ast.Name) and len(n.args) == 3 and not n.keywords \
-                    and isinstance(n.args[2], ast.Name) and n.args[2].id == mrts and n.func.id not in names:
+                    and isinstance(n.args[2], ast.Name) and n.args[2].id in thr and n.func.id not in names:
                 names.append(n.func.id)
         mi = repo.module(g.module)
         for nm in names:
